@@ -527,6 +527,9 @@ pub struct Feat {
     pub div: bool,
     /// logic operators on arbitrary (possibly negative) operands
     pub raw_logic: bool,
+    /// delay times outside 1..n-1 (0, negative, >= n, fractional beyond the end): the statement
+    /// of C02 leaves their meaning open, the back ends must still agree with each other
+    pub hostile_delay_time: bool,
     /// stateful calls inside `if` arms
     pub branch_state: bool,
     /// global data (tuples / numbers) read from functions
@@ -574,6 +577,7 @@ impl Feat {
             pow: true,
             div: true,
             raw_logic: false,
+            hostile_delay_time: false,
             branch_state: false,
             globals: true,
             many_locals: false,
@@ -881,6 +885,22 @@ impl<'a> Gen<'a> {
         if self.feat.avoids("capture-of-destructured-variable") {
             inner.vars.retain(|v| !(v.0.starts_with("dv") || v.0.starts_with("drb")));
         }
+        if self.feat.avoids("capture-of-parameter-after-aggregate-parameter") {
+            // parameters (aN) that follow an aggregate-typed parameter are not captured
+            let mut seen_aggregate = false;
+            inner.vars.retain(|v| {
+                let is_param = v.0.starts_with('a');
+                let keep = !(is_param && seen_aggregate);
+                if is_param && matches!(v.1, Ty::Tup(_) | Ty::Rec(_)) {
+                    seen_aggregate = true;
+                }
+                keep
+            });
+        }
+        if self.feat.avoids("capture-of-aggregate-parameter") {
+            // function parameters are named aN (lambda parameters laN)
+            inner.vars.retain(|v| !(v.0.starts_with('a') && matches!(v.1, Ty::Tup(_) | Ty::Rec(_))));
+        }
         // captured variables stay visible (and assignable: closures share captured cells)
         for p in &params {
             inner.vars.push((p.name.clone(), p.ty.clone(), false));
@@ -1141,7 +1161,17 @@ impl<'a> Gen<'a> {
                 let n = *self.rng.pick(&[2u32, 3, 4, 5, 8, 16]);
                 let x = self.expr_f(sc, budget);
                 // 1 <= t <= n-1, finite by construction
-                let t = if self.rng.chance(1, 2) {
+                let t = if self.feat.hostile_delay_time && self.rng.chance(1, 3) {
+                    self.mark("delay_hostile_time");
+                    if self.rng.chance(1, 2) {
+                        let c = *self.rng.pick(&[0.0, -1.0, 0.5, n as f64 - 0.5, n as f64, n as f64 + 0.5, n as f64 + 1.0, 2.0 * n as f64, 1e9]);
+                        E::Num(c, false)
+                    } else {
+                        // grows past the end as the run proceeds
+                        let e = self.expr_f(sc, &mut 1);
+                        E::Bin(BinOp::Mul, Box::new(E::Builtin("abs".into(), vec![e])), Box::new(E::Num(*self.rng.pick(&[0.5, 1.5, 3.0]), false)))
+                    }
+                } else if self.rng.chance(1, 2) {
                     E::Num(self.rng.range(1, n as i64 - 1) as f64 + if self.rng.chance(1, 3) { 0.5 } else { 0.0 }, false)
                 } else {
                     // 1 + (|e| mod (n-2)) stays in range for any finite e; NaN/inf inputs are excluded by the callers
